@@ -353,6 +353,28 @@ def check(prog, rep, tier):
         rep.bad('R19.c', 'view-updates-version', file=vf.file, line=vf.node.lineno, func=vf.qualname,
                 found='%d send_update call(s) but %d update_send_version call(s) next to them' % (len(sends), len(vers)),
                 key='view-updates-version')
+    # the bookkeeping sees the attributes that go on the wire: every write to attr in the view precedes the first
+    # bookkeeping call (Adj-RIB-Out comparison, version update)
+    book = [n for n in ast.walk(vf.node) if isinstance(n, ast.Call) and src_of(n.func) in (
+        'api_utils.save_send_ipv4_policies', 'api_utils.update_send_version')]
+    awr = [n for n in ast.walk(vf.node) if isinstance(n, ast.Assign) and any(
+        (isinstance(t, ast.Subscript) and src_of(t.value) == 'attr') or (isinstance(t, ast.Name) and t.id == 'attr')
+        for t in n.targets)]
+    if not book:
+        rep.undecided('R19.c', 'view-attr-before-bookkeeping', file=vf.file, line=vf.node.lineno,
+                      found='no bookkeeping call in the view')
+    else:
+        first = min(b.lineno for b in book)
+        late = [a_ for a_ in awr if a_.lineno > first]
+        if late:
+            rep.bad('R19.c', 'view-attr-before-bookkeeping', file=vf.file, line=late[0].lineno, func=vf.qualname,
+                    found='%s is executed after the Adj-RIB-Out / version bookkeeping at line %d: the table is compared '
+                          'with attributes that differ from what is stored and sent, so an unchanged re-announcement '
+                          'counts as a change' % (src_of(late[0])[:60], first),
+                    expected='attributes final before the bookkeeping', key='view-attr-before-bookkeeping')
+        else:
+            rep.ok('R19.c', 'view-attr-before-bookkeeping', file=vf.file, line=first,
+                   found='%d attr writes, all before line %d' % (len(awr), first))
     for attr in ('adj_rib_in', 'adj_rib_out', 'receive_version', 'send_version'):
         n = 0
         for fn in prog.all_functions():
